@@ -113,7 +113,7 @@ def run(ctx: Ctx, extended: bool = False) -> None:
                 idn = pool[int(rng.integers(len(pool)))]
                 kw = {k: f"{k}{int(rng.integers(3))}" for k in ["p", "q", "r"] if rng.random() < 0.4}
                 if f == "register":
-                    ep = "fakeenvs:" + ("E1" if rng.random() < 0.5 else "E2")
+                    ep = ("fakeenvs:" if rng.random() < 0.6 else "fakeenvs2:") + ("E1" if rng.random() < 0.5 else "E2")
                     calls.append({"f": f, "chars": annotate(idn), "ep": ep, "kw": [[k, v] for k, v in kw.items()]})
                     try:
                         registration.register(idn, ep, kwargs=dict(kw))
@@ -129,7 +129,7 @@ def run(ctx: Ctx, extended: bool = False) -> None:
                     calls.append({"f": f, "chars": annotate(idn), "kw": [[k, v] for k, v in kw.items()]})
                     try:
                         e = registration.make(idn, **kw)
-                        impl_out.append({"ep": "fakeenvs:" + type(e).__name__, "kw": sorted([k, v] for k, v in e.kw.items())})
+                        impl_out.append({"ep": type(e).__module__ + ":" + type(e).__name__, "kw": sorted([k, v] for k, v in e.kw.items())})
                     except ValueError as e:
                         msg = str(e)
                         if "Unregistered" in msg:
